@@ -40,6 +40,9 @@ class Socket(base_socket.BaseSocket):
                                 self.sid, packet_name,
                                 pkt.data if not isinstance(pkt.data, bytes)
                                 else '<binary>')
+        if self.closed:
+            # nothing is delivered for a session that has already ended
+            raise exceptions.SocketIsClosedError()
         if pkt.packet_type == packet.PONG:
             self.schedule_ping()
         elif pkt.packet_type == packet.MESSAGE:
